@@ -44,7 +44,17 @@ impl Family for C17 {
     }
     let g = pipe::GenCfg { nsrc, unary: &unary, multi: pipe::MULTI, trig: &["take_until", "skip_until", "sample"], news: &["just", "from_iter", "empty", "error", "start"], max_depth: depth };
     let mut next_src = 0;
-    let pipeline = if rng.below(10) == 0 { Json::obj(vec![("src", Json::Int(0))]) } else { pipe::gen_node(rng, &g, depth, &mut next_src) };
+    let mut pipeline = if rng.below(10) == 0 { Json::obj(vec![("src", Json::Int(0))]) } else { pipe::gen_node(rng, &g, depth, &mut next_src) };
+    if rng.below(25) == 0 {
+      // a shared stream whose source emits inside connect (start_with over a hot source) and whose
+      // first subscriber has all it needs at once
+      let mut p = Json::obj(vec![("src", Json::Int(0))]);
+      for (op, a) in [("start_with", 3i64), ("map", 1), (*rng.pick(&["ref_count", "replay"]), 0), (*rng.pick(&["take", "first", "element_at"]), if rng.below(2) == 0 { 1 } else { 0 })] {
+        p = Json::obj(vec![("op", Json::str(op)), ("a", Json::Int(a)), ("in", p)]);
+      }
+      pipeline = p;
+      next_src = 1;
+    }
     // finite sources that do end: complete or error (never silence, so that "ended" is well defined
     // unless a cancel is injected)
     let mut sources = gen_sources(rng, nsrc, 3, false, &[Mode::Hot, Mode::Hot, Mode::Cold, Mode::Subject, Mode::ReplaySubject]);
@@ -93,6 +103,9 @@ impl Family for C17 {
     };
     // the property speaks about subscriptions that have ended
     if r.res.outcome.is_ok() && ended_by != "none" {
+      // (r.live_tokens_sources_alive - the count while the caller's sources are still alive - is
+      // recorded but not judged: what a source that outlives the subscription may legitimately keep
+      // differs per source kind; the sources' side is C06's and C10's business)
       if let Some(n) = r.live_tokens {
         if n > 0 {
           v.push(Violation::new(
